@@ -2020,7 +2020,18 @@ func (p *CodeBuilder) Send() *CodeBuilder {
 	}
 	val := p.stk.Pop()
 	ch := p.stk.Pop()
-	// TODO: check types
+	t, ok := ch.Type.Underlying().(*types.Chan)
+	if !ok {
+		src, pos, end := p.loadExpr(ch.Src)
+		p.panicCodeErrorf(pos, end, "invalid operation: cannot send to non-channel %s (type %v)", src, ch.Type)
+	}
+	if t.Dir() == types.RecvOnly {
+		src, pos, end := p.loadExpr(ch.Src)
+		p.panicCodeErrorf(pos, end, "invalid operation: cannot send to receive-only channel %s (type %v)", src, ch.Type)
+	}
+	if err := matchType(p.pkg, val, t.Elem(), "send"); err != nil {
+		panic(err)
+	}
 	emitSendStmt(p, ch.Val, val.Val)
 	return p
 }
